@@ -73,7 +73,7 @@ func runC12(c *Ctx) {
 	}
 	ub, _ := newRegBackend(u, 8)
 	defer ub.close()
-	masks := []int{1, 2, 3, 4, 8, 16, 17, 18, 24, 9, 10, 6, 5, 15, 11, 27, 31, 26, 19}
+	masks := []int{1, 2, 3, 4, 8, 16, 17, 18, 24, 9, 10, 6, 5, 15, 11, 27, 31, 26, 19, 32, 34, 48}
 	nh := c.N(40, 500)
 	for h := 0; h < nh; h++ {
 		mux, _ := larking.NewMux(larking.FilesOption(u.fx.Files), larking.TypesOption(u.fx.Types))
@@ -91,6 +91,8 @@ func runC12(c *Ctx) {
 			scen = [][3]interface{}{{"C", 0, 1}, {"C", 1, 1}, {"C", 2, 1}, {"D", 0, 0}, {"D", 1, 0}}
 		case 1: // a second service below an existing variable node, then a failing one
 			scen = [][3]interface{}{{"C", 0, 1}, {"C", 1, 2}, {"C", 2, 4}, {"D", 1, 0}, {"C", 3, 16}}
+		case 3: // a local service whose streaming half conflicts: nothing of its unary half may stay
+			scen = [][3]interface{}{{"S", 0, 0}, {"S", 5, 0}, {"C", 0, 2}, {"S", 5, 0}, {"D", 0, 0}}
 		case 2: // changed re-registration that fails (drop-and-recreate, then duplicate rule)
 			scen = [][3]interface{}{{"S", 0, 0}, {"C", 0, 2}, {"C", 1, 2}, {"C", 0, 6}, {"D", 1, 0}}
 		}
@@ -101,7 +103,7 @@ func runC12(c *Ctx) {
 			} else {
 				switch x := c.Rng.Intn(20); {
 				case x < 2:
-					r.doOp("S", c.Rng.Intn(5), 0)
+					r.doOp("S", c.Rng.Intn(6), 0)
 				case x < 12:
 					b := c.Rng.Intn(4)
 					mask := masks[c.Rng.Intn(len(masks))]
@@ -147,7 +149,7 @@ func runC12(c *Ctx) {
 			}
 		}
 	}
-	runStress(c, "C12", c.N(1200, 6000))
+	runStress(c, "C12", c.N(2000, 8000))
 }
 
 func firstDiff(a, b string) string {
@@ -251,6 +253,29 @@ func stressC12(seed int64, d time.Duration) *StressReport {
 			}
 		}(g)
 	}
+	// a route whose method comes and goes with the writers' connections (SvcB.M3 has exactly one
+	// deletable rule): one consistent state answers 200 or 404, never "route found, no handler"
+	longQuery := strings.Repeat("rs=v&", 30000) + "rs=last" // tens of thousands of parameters: resolving them takes milliseconds
+	var flapping int64
+	for g := 0; g < 2; g++ {
+		wg.Add(1)
+		go func() {
+			defer wg.Done()
+			m3 := u.methods[2]
+			for {
+				select {
+				case <-stop:
+					return
+				default:
+				}
+				rec, pn := serveOn(mux, httptest.NewRequest("GET", m3.samples[1][1]+"?"+longQuery, nil))
+				if pn != nil || (rec.Code != 200 && rec.Code != 404) {
+					rep.fail("C12/request-resolved-against-two-states", "GET "+m3.samples[1][1]+"?rs=v&… (30000 parameters) while the owning connections are registered and dropped", fmt.Sprint(rec.Code, " ", pn, " ", truncS(rec.Body.String(), 100)), "200 or 404", "the route was matched in one published state and the handler picked from another")
+				}
+				atomic.AddInt64(&flapping, 1)
+			}
+		}()
+	}
 	// writers: each owns one backend, so its last successful call determines that backend's entry
 	type last struct {
 		mask int
@@ -330,6 +355,7 @@ func stressC12(seed int64, d time.Duration) *StressReport {
 	rep.eval("requests-during-registration", int(served))
 	rep.eval("states-observed", int(states))
 	rep.eval("concurrent-writer-calls", int(ops))
+	rep.eval("requests-on-a-flapping-route", int(flapping))
 
 	// slow reflection overlapping another registration (lost update window)
 	for round := 0; round < 3; round++ {
